@@ -444,19 +444,33 @@ def sample_configs(ck: Check) -> list[dict]:
     sl = {"system": "stuart_landau", "n_points": 1}
     sl2 = {"system": "stuart_landau", "n_points": 2}
     lo = {"system": "lorenz", "n_points": 1}
-    raw = [(sl2, None), (lo, None)] if q else [(sl2, None)] * 4 + [(lo, None)] * 3 + [(sl, None)]
-    for sysd, _ in raw:
+    # one FE integrates the controlled system with scipy's RK45 (Python speed); some controller families make single
+    # FEs take seconds to minutes for some parameter vectors, so the quick tier draws from the cheap families only
+    # and every controller-synthesis run is executed under a harness time limit (a run that exceeds it yields no verdict)
+    cheap = {"stuart_landau": ["linear", "linear_2", "cubic", "quadratic", "peaks_1", "peaks_2"],
+             "lorenz": ["ann", "cubic", "quadratic", "peaks_1", "min_ann_1"]}
+    limit = 40 if q else 240
+    raw = [sl2, lo] if q else [sl2] * 5 + [lo] * 4 + [sl] * 2
+    for sysd in raw:
         names = sorted(ctrl_controllers(ctrl_system({**sysd})).keys())
+        if q:
+            names = [n for n in names if n in cheap[sysd["system"]]]
         add({"kind": "ctrl_raw", **sysd, "controller": rng.choice(names), "seed": seed(),
-             "budget": rng.choice([4, 5, 6] if q else [6, 8, 10])})
+             "budget": rng.choice([4, 5, 6] if q else [6, 8, 10]), "time_limit": limit})
     sur = [(sl, "cmaes_raw"), (sl, "cmaes_surrogate")] if q else \
         [(sl, "cmaes_raw"), (sl2, "cmaes_raw"), (lo, "cmaes_raw"), (sl, "cmaes_surrogate"), (sl2, "cmaes_surrogate"),
          (lo, "cmaes_surrogate")]
-    for sysd, setup in sur:
-        sd = 2 if sysd["system"] == "stuart_landau" else 3
-        add({"kind": "ctrl_sur", "setup": setup, **sysd, "ctrl_layers": [sd, sd], "model_layers": [sd, sd, sd],
-             "warmup": 2, "training": rng.choice([4, 6, 8]), "model_run": rng.choice([4, 6, 8]),
-             "seed": seed(), "budget": rng.choice([4, 5] if q else [5, 6, 8])})
+    for patched in (False, True):
+        # second pass: the same bundled setups with the dependency defect behind the known finding `control_run_raises`
+        # neutralised in-process (see dependency_patch), so that the surrogate loop itself is sampled as well
+        for sysd, setup in sur:
+            sd = 2 if sysd["system"] == "stuart_landau" else 3
+            c = {"kind": "ctrl_sur", "setup": setup, **sysd, "ctrl_layers": [sd, sd], "model_layers": [sd, sd, sd],
+                 "warmup": 2, "training": rng.choice([4, 6, 8]), "model_run": rng.choice([4, 6, 8]),
+                 "seed": seed(), "budget": rng.choice([4, 5] if q else [5, 6, 8]), "time_limit": limit}
+            if patched:
+                c["patch_dep"] = True
+            add(c)
     return cfgs
 
 
@@ -584,7 +598,7 @@ def streams(ck: Check) -> None:
         b = run_config(cfg, root, "B")
         ck.case(line)
         ck.case(line)
-        ck.count(f"cfg:{cfg['kind']}:{cfg.get('setup', 'cmaes')}")
+        ck.count(f"cfg:{cfg['kind']}:{cfg.get('setup', 'cmaes')}" + ("+dependency_patch" if cfg.get("patch_dep") else ""))
         ck.count(f"budget<={[b2 for b2 in (10, 30, 100, 300, 10**9) if cfg['budget'] <= b2][0]}")
         if cfg["kind"] == "bp":
             ck.count(f"bp:{cfg['objective']}:enc{cfg['encoding']}")
@@ -928,6 +942,11 @@ def check(ck: Check) -> None:
         "wall-clock budgets (max_time_millis) are never used; time stamps in logs are ignored",
     ]
     ck.not_proved += [
+        "known finding control_run_raises: with the pinned moptipy 0.9.136 / pycommons 0.8.58 every run of experiment_surrogate.cmaes_raw "
+        "and cmaes_surrogate raises TypeError from moptipy's cmaes_lib restart-table rendering (num_to_str on numpy.int64), because "
+        "surrogate_optimizer._bpcmaes asks for the restart log and base_setup always logs; cmaes_surrogate stops right after the warm-up "
+        "FEs, so the model-training / on-model loop of the bundled setup cannot be run as shipped. Those runs are still compared up to "
+        "the exception; the loop is sampled only in an additional pass with that dependency call patched in-process (cfg patch_dep)",
         "the universal statement of C12 (every setup x instance x seed x budget): sampled only - level 'other'",
         "replicability across machines / library versions; encoding 2 statelessness is C14's theorem, not restated here",
     ]
